@@ -5,75 +5,6 @@ import (
 	"strings"
 )
 
-// effRef is the closed form of effectivePkg on clean arguments (theorem effectivePkg_closed_form):
-// root followed by the part of path after the last occurrence — not counting path's final element —
-// of root's final element, when root has at least two elements; root followed by path otherwise.
-func effRef(root, p []string) []string {
-	cut := 0
-	if len(root) >= 2 {
-		last := root[len(root)-1]
-		for j := len(p) - 2; j >= 0; j-- {
-			if p[j] == last {
-				cut = j + 1
-				break
-			}
-		}
-	}
-	return append(append([]string{}, root...), p[cut:]...)
-}
-
-// classPkgDir names the divergence class of a pkgDir input: "" inside the domain of
-// pkgDir_eq_spec_partial (Props/C16.lean `domPkgDir`), else the first failing clause.
-// It is a predicate of the input (tree, root, path) only.
-func classPkgDir(v *view, root, p string) string {
-	if root != "" && !normalPath(root) {
-		return "root-not-clean"
-	}
-	if !normalPath(p) {
-		return "path-not-clean"
-	}
-	pe := strings.Split(p, "/")
-	for _, e := range pe {
-		if e == "vendor" {
-			return "vendor-in-path"
-		}
-	}
-	var re []string
-	if root != "" {
-		re = strings.Split(root, "/")
-	}
-	gs := v.gs()
-	isFile := func(x string) bool { _, ok := v.t.Files[strings.TrimPrefix(strings.TrimPrefix(x, v.top), "/")]; return ok }
-	// in the order of the search: the importing directory first, then its ancestors
-	for k := len(re); k >= 0; k-- {
-		base := gs
-		if k > 0 {
-			base += "/" + strings.Join(re[:k], "/")
-		}
-		vd := base + "/vendor"
-		cand := vd + "/" + p
-		if isFile(cand) {
-			return "candidate-is-a-file"
-		}
-		if v.dirSet[cand] && !v.goDirs[cand] {
-			return "vendor-dir-without-go-files"
-		}
-		if k >= 1 {
-			e := gs + "/" + strings.Join(effRef(re[:k], pe), "/")
-			if v.dirSet[e] || isFile(e) {
-				return "found-under-root"
-			}
-		}
-		if k >= 1 && k < len(re) && isFile(vd) {
-			return "vendor-is-a-file"
-		}
-	}
-	if isFile(gs + "/" + p) {
-		return "candidate-is-a-file"
-	}
-	return ""
-}
-
 func in(xs []string, s string) bool {
 	for _, x := range xs {
 		if x == s {
@@ -129,93 +60,33 @@ func refEdges(v *view, p *Prog) []edge {
 	return out
 }
 
-// classProg names the divergence class of a whole program: "" when every feature of the input is inside
-// the proved domain, else the first trigger present. A predicate of the input only.
+// classProg names the divergence class of a whole program: "" when no listed finding applies to the
+// input, else the first trigger present. A predicate of the input only. After the repairs of F16,
+// F16-1..F16-7, F16-9 and F16-10 two classes are left.
 func classProg(v *view, p *Prog) string {
 	edges := refEdges(v, p)
-	mainVendored := false
-	md := p.mainDir(v.t)
-	for _, e := range edges {
-		if e.importerRel == p.Main && p.Main != "" && strings.HasPrefix(e.dir, md+"/vendor/") {
-			mainVendored = true
-		}
-	}
-	mainUsesVendor := false
-	for _, e := range edges {
-		if p.Main != "" && e.importerRel == p.Main && strings.Contains(e.dir, "/vendor/") {
-			mainUsesVendor = true
-		}
-	}
-	_ = mainVendored
-	// eval, top and file entries all resolve the imports of the main file from the literal root "main"
-	if p.Entry == "eval" || p.Entry == "top" || p.Entry == "file" {
-		for _, im := range p.Imports {
-			if !isRel(im) && (v.dirSet[v.gs()+"/vendor/"+im] || v.dirSet[v.gs()+"/main/vendor/"+im] || v.dirSet[v.gs()+"/main/"+im]) {
-				return "outside-main-sees-gopath-vendor"
+	// F16-11: an import that fails from the importing package is tried again from the location of the main
+	// file — a package outside the directory of the main package then sees the main package's vendor directories
+	if p.Entry == "file" {
+		for _, e := range edges {
+			if e.dir != "" || isRel(e.ipath) || vendorElem(e.ipath) || e.importerRel == "-" {
+				continue
+			}
+			if v.refResolve(p.Main, e.ipath) != "none" {
+				return "retried-from-main-location"
 			}
 		}
 	}
-	// so does every package imported relatively from there (its root is its directory name)
-	for _, e := range edges {
-		if e.importerRel == "-" && !isRel(e.ipath) && v.dirSet[v.gs()+"/vendor/"+e.ipath] {
-			return "outside-main-sees-gopath-vendor"
-		}
-	}
-	switch p.Entry {
-	case "dot":
-		if mainUsesVendor {
-			return "main-given-as-dot"
-		}
-	case "file":
-		if mainUsesVendor {
-			if !v.disk {
-				return "main-file-vendor-mapfs"
-			}
-			return "main-file-vendor"
-		}
-	}
-	for _, e := range edges {
-		if isRel(e.ipath) {
-			continue
-		}
-		el := strings.Split(e.ipath, "/")
-		if len(el) >= 2 && path.Dir(e.ipath) == path.Base(e.ipath) {
-			return "doubled-import-path"
-		}
-	}
-	for _, e := range edges {
-		if e.importerRel != "-" && !isRel(e.ipath) {
-			if c := classPkgDir(v, e.importerRel, e.ipath); c != "" {
-				return c
-			}
-		}
-		if e.importerRel == "-" && !isRel(e.ipath) {
-			// seen from outside GOPATH the interpreter still walks main / "" roots
-			if c := classPkgDir(v, "", e.ipath); c != "" {
-				return c
-			}
-		}
-	}
+	// F16-8: srcPkg is keyed by import path — the same import path denotes two directories for two importers
 	dirOf := map[string]string{}
 	for _, e := range edges {
-		if e.dir == "" {
+		if e.dir == "" || isRel(e.ipath) {
 			continue
 		}
 		if d, ok := dirOf[e.ipath]; ok && d != e.dir {
 			return "same-path-two-dirs"
 		}
 		dirOf[e.ipath] = e.dir
-	}
-	// one directory reached through two different relative import path strings
-	relOf := map[string]string{}
-	for _, e := range edges {
-		if !isRel(e.ipath) || e.dir == "" {
-			continue
-		}
-		if s, ok := relOf[e.dir]; ok && s != e.ipath {
-			return "same-dir-two-relative-paths"
-		}
-		relOf[e.dir] = e.ipath
 	}
 	return ""
 }
